@@ -517,7 +517,9 @@ Definition mon_sstep (st : sstep) : list string :=
       then [] else ["C19:failed-mode-config-change-altered-served-status"]) ++
      (if st_unknown || opt_eqb status_eqb (so_stored a) (so_stored b) then [] else ["C19:failed-mode-config-change-altered-persisted-status"]) ++
      (if String.eqb (so_cmode a) (so_cmode b) && String.eqb (so_clabel a) (so_clabel b) then [] else ["C19:failed-mode-config-change-altered-served-config"]) ++
-     (if cfg_unknown || (String.eqb (so_rmode a) (so_rmode b) && String.eqb (so_rlabel a) (so_rlabel b)) then []
+     (* the stored config is as before, or (the roll-back wrote the served section again, repairing an earlier unknown outcome) the served one *)
+     (if cfg_unknown || (String.eqb (so_rmode a) (so_rmode b) && String.eqb (so_rlabel a) (so_rlabel b))
+         || (String.eqb (so_rmode b) (so_cmode b) && String.eqb (so_rlabel b) (so_clabel b)) then []
       else ["C19:failed-mode-config-change-altered-stored-config"]))%list.
 Definition monitor_s (c : scase) : list string := nodup string_dec (flat_map mon_sstep c).
 Definition monitor_s_fails (cs : list scase) : list (nat * string) :=
